@@ -40,7 +40,7 @@ def uq_to_R(q):
     return ctorlib._q2r(q)
 
 
-def routes3(T0, T1, with_start):
+def routes3(T0, T1, with_start, far_from_antipodal=True):
     """name -> f(s) returning a 4x4 (translation zero for rotation-only routes) ; second item: has translation"""
     import spatialmath.base as b
     from spatialmath import SO3, SE3, UnitQuaternion
@@ -64,6 +64,18 @@ def routes3(T0, T1, with_start):
     # the same rotations held as the OTHER quaternion of the double cover (negative scalar part): with shortest=True
     # the result must still follow the shorter arc
     n0, n1 = UnitQuaternion(-q0.vec), UnitQuaternion(-q1.vec)
+    # ... and WITHOUT the shorter-arc option: the arc taken is that of the quaternions given (class method and base
+    # function must take the same one)
+    # (nearly antipodal pairs - relative rotation close to the identity held on opposite sheets - are excluded by the
+    # statement when the shorter arc is not requested)
+    if not far_from_antipodal:
+        pass
+    elif with_start:
+        out["UnitQuaternion.interp(dest=-q)"] = (lambda s: b.r2t(uq_to_R(q0.interp(s, dest=n1).vec)), False)
+        out["base.slerp(q0,-q1)"] = (lambda s: b.r2t(uq_to_R(b.slerp(q0.vec, n1.vec, s))), False)
+    else:
+        out["UnitQuaternion(-q).interp"] = (lambda s: b.r2t(uq_to_R(n1.interp(s).vec)), False)
+        out["base.slerp(1,-q1)"] = (lambda s: b.r2t(uq_to_R(b.slerp(np.array([1.0, 0, 0, 0]), n1.vec, s))), False)
     if with_start:
         out["UnitQuaternion.interp(dest=-q,shortest)"] = (lambda s: b.r2t(uq_to_R(q0.interp(s, dest=n1, shortest=True).vec)), False)
         out["UnitQuaternion(-q).interp(dest,shortest)"] = (lambda s: b.r2t(uq_to_R(n0.interp(s, dest=q1, shortest=True).vec)), False)
@@ -184,7 +196,8 @@ def integer_ends(j):
             T1[:3, :3], T1[:3, 3] = np.round(R1), ts[(b_ + 1) % 3]
             planar = abs(T0[2, 2] - 1) < 1e-12 and abs(T1[2, 2] - 1) < 1e-12 and T0[2, 3] == 0 and T1[2, 3] == 0
             for with_start in (True, False):
-                fams = [(routes3(T0, T1, with_start), routes3(T0.astype(int), T1.astype(int), with_start))]
+                fams = [(routes3(T0, T1, with_start, far_from_antipodal=False),
+                         routes3(T0.astype(int), T1.astype(int), with_start, far_from_antipodal=False))]
                 if planar:
                     H0, H1 = T0[[0, 1, 3]][:, [0, 1, 3]], T1[[0, 1, 3]][:, [0, 1, 3]]
                     fams.append((routes2(H0, H1, with_start), routes2(H0.astype(int), H1.astype(int), with_start)))
@@ -233,7 +246,7 @@ def valuations(j, rng, n):
         sc = max(1.0, float(np.max(np.abs(t0))), float(np.max(np.abs(t1))))
         with_start = bool(i % 3)
         taken = {}
-        for site, (fn, has_t) in routes3(T0, T1, with_start).items():
+        for site, (fn, has_t) in routes3(T0, T1, with_start, far_from_antipodal=dth >= 0.05).items():
             for s in svals:
                 cid = (site, band, "s=%g" % s)
                 feat = "%s;s=%g;start=%s" % (band, s, with_start)
@@ -242,8 +255,7 @@ def valuations(j, rng, n):
                 if r is None:
                     continue
                 R = r[:3, :3]
-                if "-q" not in site:
-                    taken.setdefault(("shortest" in site, s), []).append((site, R))
+                taken.setdefault(("shortest" in site, "-q" in site, s), []).append((site, R))
                 ok = gamma.validity_residual("SO3", R) <= 1e-9                            # a valid member for every s
                 mode = "not-a-group-member"
                 if ok and has_t:
@@ -259,7 +271,7 @@ def valuations(j, rng, n):
                 check(j, ok, site, feat, mode, dict(detail, got=r.tolist()), cid)
         # the matrix functions, the pose-class method and the quaternion routes agree: with the same setting of the
         # shorter-arc option and the same quaternions (those the matrices convert to) they take the same arc
-        for (sh, s), lst in taken.items():
+        for (sh, neg, s), lst in taken.items():
             site0, Ra = lst[0]
             for site, Rb in lst[1:]:
                 cid = ("agree", site, band, "interior" if 0 < s < 1 else "end")
